@@ -114,7 +114,12 @@ fn try_deliver(g: &mut VGroup, bytes: &[u8]) -> Outcome {
         Ok(Err(_)) => return Outcome::DecodeReject,
         Err(p) => return Outcome::Panic(p),
     };
-    match guarded(|| g.process_incoming_message(m)) {
+    let r = if use_timed_entry_point() {
+        guarded(|| g.process_incoming_message_with_time(m, mls_rs::time::MlsTime::now()))
+    } else {
+        guarded(|| g.process_incoming_message(m))
+    };
+    match r {
         Ok(Ok(_)) => Outcome::Accepted,
         Ok(Err(e)) => Outcome::Rejected(err_kind(&e)),
         Err(p) => Outcome::Panic(p),
@@ -627,6 +632,60 @@ impl Tamper {
         }
     }
 
+    /// Genuine messages of a sibling group (same suite, same epoch number, other group id)
+    /// delivered into this group: member messages, and messages of senders that are not bound
+    /// to a group by the signature context (an outsider proposing itself).
+    fn cross_group(&mut self, w: &mut World) {
+        let cur = w.epoch();
+        let act = w.active();
+        if cur > 48 || act.is_empty() {
+            return;
+        }
+        let prov = w.cfg.provs[self.rng.below(w.cfg.provs.len())];
+        let cs = w.suite_of(prov);
+        let mk = |name: &[u8], w: &World| {
+            let (sk, pk) = cs.signature_key_generate().ok()?;
+            let stores = Stores::new(crate::store::Backend::Mem, 3);
+            Some(make_client(name, prov, 995, w.cfg.suite, sk, pk, &stores, &VIdent::default(), w.cfg.rules(), None).0)
+        };
+        let (Some(creator), Some(outsider)) = (mk(b"sib0", w), mk(b"sibx", w)) else { return };
+        let gce = w.base_gce();
+        let Ok(Ok(mut g2)) = guarded(|| creator.create_group(gce, Default::default(), None)) else { return };
+        while g2.current_epoch() < cur {
+            if !matches!(guarded(|| g2.commit(vec![])), Ok(Ok(_))) || !matches!(guarded(|| g2.apply_pending_commit()), Ok(Ok(_))) {
+                return;
+            }
+        }
+        let mut msgs: Vec<(&'static str, Vec<u8>)> = vec![];
+        if let Ok(Ok(gi2)) = guarded(|| g2.group_info_message_allowing_ext_commit(true)) {
+            if let Ok(Ok(m)) = guarded(|| outsider.external_add_proposal(&gi2, None, vec![], Default::default(), Default::default(), None)) {
+                if let Ok(b) = m.to_bytes() {
+                    msgs.push(("new_member_proposal_of_sibling_group", b));
+                }
+            }
+        }
+        if let Ok(Ok(m)) = guarded(|| g2.propose_group_context_extensions(w.base_gce(), vec![])) {
+            if let Ok(b) = m.to_bytes() {
+                msgs.push(("member_proposal_of_sibling_group", b));
+            }
+        }
+        if let Ok(Ok(m)) = guarded(|| g2.encrypt_application_message(b"sibling", vec![])) {
+            if let Ok(b) = m.to_bytes() {
+                msgs.push(("application_message_of_sibling_group", b));
+            }
+        }
+        if let Ok(Ok(o)) = guarded(|| g2.commit(vec![])) {
+            if let Ok(b) = o.commit_message.to_bytes() {
+                msgs.push(("commit_of_sibling_group", b));
+            }
+        }
+        for (class, b) in msgs {
+            for &to in act.iter().take(2) {
+                self.trial_opt(w, to, "cross_group", class, None, &b);
+            }
+        }
+    }
+
     /// Insider structural mutations: authentic commits that are structurally invalid.
     fn insider(&mut self, w: &mut World) {
         let act = w.active();
@@ -661,6 +720,10 @@ impl Tamper {
             ("leaf_keeps_old_hpke_key", vec![Mutation::LeafKeepOldHpkeKey]),
             ("leaf_source_update", vec![Mutation::LeafSourceUpdate]),
             ("leaf_wrong_parent_hash", vec![Mutation::LeafCorruptParentHash]),
+            ("leaf_parent_hash_empty", vec![Mutation::LeafEditParentHash { keep: 0, append: vec![] }]),
+            ("leaf_parent_hash_prefix", vec![Mutation::LeafEditParentHash { keep: 31, append: vec![] }]),
+            ("leaf_parent_hash_one_byte", vec![Mutation::LeafEditParentHash { keep: 1, append: vec![] }]),
+            ("leaf_parent_hash_extended", vec![Mutation::LeafEditParentHash { keep: 1000, append: vec![0] }]),
             ("leaf_signed_by_other_member", vec![Mutation::LeafSignWith(other_sig_key)]),
             ("leaf_foreign_hpke_key", vec![Mutation::LeafReplaceHpkeKey(other_leaf_key.clone())]),
             ("stale_confirmation_tag", vec![Mutation::ReplaceConfirmationTag(prev_tag)]),
@@ -1086,6 +1149,9 @@ impl Hooks for Tamper {
     fn before_commit(&mut self, w: &mut World) {
         self.replays(w);
         self.attack_key_packages(w);
+        if self.rng.chance(1, 2) {
+            self.cross_group(w);
+        }
     }
 
     fn before_receive(&mut self, w: &mut World, to: usize, msg: &MlsMessage) {
